@@ -257,7 +257,7 @@ def aerostruct_level(rep, tier, timeout):
                 sx["fem_origin"] = 0.75
                 sx["mesh"] = sx["mesh"] + np.array([6.0, 0.0, 0.5])
             surfs.append(sx)
-        G = groups.aerostruct_symbolic(surfs if nsurf > 1 else surfs[0], compressible=compressible)
+        G = groups.aerostruct_symbolic(surfs if nsurf > 1 else surfs[0], compressible=compressible, rep=rep)
         G.encode(rep)
         if compressible:
             cn += " compressible"
